@@ -426,8 +426,7 @@ func checkRecovered(n *node, m *model, dur durable, class func(string)) (*model,
 	for i := range usedSeries {
 		usedSeries[i] = map[mkey]map[uint32]string{}
 	}
-	var maxMetric, maxKey, maxVal uint32
-	ownerMetric, ownerKey, ownerVal := map[uint32]string{}, map[uint32]string{}, map[uint32]string{}
+	var maxMetric uint32
 	foundMetric := map[mkey]bool{}
 	foundField, foundKey, foundVal := map[string]bool{}, map[string]bool{}, map[string]bool{}
 
@@ -440,7 +439,6 @@ func checkRecovered(n *node, m *model, dur durable, class func(string)) (*model,
 		if mm.id > maxMetric {
 			maxMetric = mm.id
 		}
-		ownerMetric[mm.id] = k.String()
 		id, found, err := lookupMetric(n, k)
 		if err != nil {
 			return nil, fmt.Errorf("GetMetricID(%s): %w", k, err)
@@ -510,10 +508,6 @@ func checkRecovered(n *node, m *model, dur durable, class func(string)) (*model,
 			if !t.has {
 				continue
 			}
-			if t.id > maxKey {
-				maxKey = t.id
-			}
-			ownerKey[t.id] = fmt.Sprintf("%s[%s]", k, tk)
 			if !seenT[tk] && t.seq <= dur.Meta {
 				return nil, fmt.Errorf("FLUSHED NAME LOST: tag key %s[%s] (id %d, requested at seq %d, metadata flushed up to seq %d) is not in the recovered schema %+v", k, tk, t.id, t.seq, dur.Meta, schema.TagKeys)
 			}
@@ -540,10 +534,6 @@ func checkRecovered(n *node, m *model, dur durable, class func(string)) (*model,
 				if !x.has {
 					continue
 				}
-				if x.id > maxVal {
-					maxVal = x.id
-				}
-				ownerVal[x.id] = fmt.Sprintf("%s[%s=%s]", k, tk, v)
 				if _, ok := dict[v]; !ok && x.seq <= dur.Meta {
 					return nil, fmt.Errorf("FLUSHED NAME LOST: tag value %s[%s=%s] (id %d, requested at seq %d, metadata flushed up to seq %d) is not in the recovered dictionary %v", k, tk, v, x.id, x.seq, dur.Meta, dict)
 				} else if !ok {
@@ -851,9 +841,6 @@ func checkRecovered(n *node, m *model, dur durable, class func(string)) (*model,
 			}
 		}
 	}
-	_ = ownerMetric
-	_ = ownerKey
-	_ = ownerVal
 	return rm, nil
 }
 
